@@ -1217,6 +1217,29 @@ func init() {
 	intrinsics["math.Inf"] = func(fr *frame, args []value) value {
 		return math.Inf(args[0].(int))
 	}
+	// rounding to an integral value: the SMT FloatingPoint theory has the operation for every mode
+	for name, mode := range map[string]string{"math.Trunc": "RTZ", "math.Floor": "RTN", "math.Ceil": "RTP", "math.Round": "RNA", "math.RoundToEven": "RNE"} {
+		name, mode := name, mode
+		native := map[string]func(float64) float64{"math.Trunc": math.Trunc, "math.Floor": math.Floor, "math.Ceil": math.Ceil, "math.Round": math.Round, "math.RoundToEven": math.RoundToEven}[name]
+		intrinsics[name] = func(fr *frame, args []value) value {
+			switch x := args[0].(type) {
+			case float64:
+				return native(x)
+			case symFP:
+				return symFP{"(fp.roundToIntegral " + mode + " " + x.t + ")"}
+			}
+			panic(name)
+		}
+	}
+	intrinsics["math.Signbit"] = func(fr *frame, args []value) value {
+		switch x := args[0].(type) {
+		case float64:
+			return math.Signbit(x)
+		case symFP:
+			return symBool{"(fp.isNegative " + x.t + ")"}
+		}
+		panic("Signbit")
+	}
 	intrinsics["math.Abs"] = func(fr *frame, args []value) value {
 		switch x := args[0].(type) {
 		case float64:
